@@ -83,6 +83,8 @@ mod rustc_entry;
 mod scopeguard;
 mod set;
 mod table;
+#[cfg(feature = "verif-hooks")]
+pub mod verif;
 
 pub mod hash_map {
     //! A hash map implemented with quadratic probing and SIMD lookup.
